@@ -425,6 +425,10 @@ func (g *qgen) kparam(d int) string {
 }
 
 func (g *qgen) qparam(d int) string {
+	// parameters inside [0,1] that vary from step to step within a batch
+	if g.r.Intn(4) == 0 {
+		return pick(g.r, []string{"((time() % 97) / 97)", "((time() % 13) / 13)", "(scalar(sum(foo)) % 1)", "((time() % 7) / 5 - 0.2)"})
+	}
 	switch g.r.Intn(8) {
 	case 0:
 		return "-0.5"
